@@ -429,6 +429,41 @@ fn corpus_splits(ctx: &Ctx, rep: &mut Reporter, per_file: usize) {
     }
 }
 
+/// "A malformed line can only turn itself into an error" at the level of the consumers of
+/// the record stream: a mapper and a cache built from a file with unparseable lines strewn
+/// in (also inside inline groups and between a class line and its members) answer every
+/// query like those built from the file without them.
+fn noise_invariance(rng: &mut Rng, rep: &mut Reporter, case_idx: u64) {
+    use crate::diffmon::{diff_remap, make_extras, names_from_universe, DiffOpts};
+    let mut cfg = crate::props::c01::cfg_for(case_idx / 8);
+    cfg.max_blocks = cfg.max_blocks.min(6);
+    cfg.inline_pct = 35;
+    let ast = Gen::new(rng, cfg).ast();
+    let clean = ast.print(Term::Lf, true, rng);
+    let noisy = ast.with_noise(rng, 40).print(*rng.pick(&Term::ALL), rng.chance(1, 2), rng);
+    let (items, _) = cur::records(&clean, usize::MAX);
+    let u = crate::universe::from_records(&items, false);
+    drop(items);
+    if !u.in_domain {
+        return;
+    }
+    let names = names_from_universe(&u);
+    let ex = make_extras(&names, rng, 2, 2, 2);
+    let (m0, m1) = (cur::mapper(&clean, true), cur::mapper(&noisy, true));
+    let (b0, b1) = (cur::write_cache(&clean).expect("write to Vec"), cur::write_cache(&noisy).expect("write to Vec"));
+    let (a0, a1) = (pgvcore::util::AlignedBuf::from_bytes(&b0), pgvcore::util::AlignedBuf::from_bytes(&b1));
+    let (Ok(c0), Ok(c1)) = (cur::parse_cache(a0.as_slice()), cur::parse_cache(a1.as_slice())) else { return };
+    rep.count("noise_invariance_files", 1);
+    let mk = || {
+        let mut d = Json::obj();
+        d.set("clean", text_json(&clean[..clean.len().min(4000)]));
+        d.set("with_unparseable_lines", text_json(&noisy[..noisy.len().min(6000)]));
+        d
+    };
+    diff_remap(&m0, &m1, &u, &ex, &DiffOpts { la: "mapper of the clean file", lb: "mapper of the file with unparseable lines", by_params: true, typed: true, signature_prefix: "unparseable lines change the answers: " }, rep, case_idx, 1, &mk);
+    diff_remap(&c0, &c1, &u, &ex, &DiffOpts { la: "cache of the clean file", lb: "cache of the file with unparseable lines", by_params: true, typed: true, signature_prefix: "unparseable lines change the answers: " }, rep, case_idx, 2, &mk);
+}
+
 pub fn run(ctx: &Ctx, rep: &mut Reporter) {
     let special = |c: u64| ctx.only_case.is_none() || ctx.only_case == Some(c);
     let thorough = ctx.tier == Tier::Thorough;
@@ -446,6 +481,12 @@ pub fn run(ctx: &Ctx, rep: &mut Reporter) {
             continue;
         }
         let mut rng = ctx_rng(ctx, case_idx);
+        if case_idx % 16 == 5 && !ctx.slow() {
+            let r = guarded(|| noise_invariance(&mut rng, rep, case_idx));
+            if let Err(p) = r {
+                panic_violation(rep, case_idx, "panic", &p, Json::obj());
+            }
+        }
         let a = hostile_piece(&mut rng);
         let b = hostile_piece(&mut rng);
         let sep: &[u8] = *rng.pick(&[b"\n".as_slice(), b"\r\n", b"\r"]);
